@@ -214,4 +214,42 @@ func TestVerifC11(t *testing.T) {
 		}
 		o.line("resource-bound "+name+" 65536", verdict)
 	}
+	// large WELL-FORMED inputs whose repeatable parameters alternate (a run of one type never gets long) or come in long
+	// runs: time and allocation must stay proportional to the input here too
+	trd := append([]byte{0x00, 0xF0, 0x00, 0x11, 0x8D}, make([]byte, 12)...)                   // TagReportData{EPC96}
+	cus := []byte{0x03, 0xFF, 0x00, 0x0D, 0x00, 0x00, 0x65, 0x1A, 0x00, 0x00, 0x00, 0x07, 0x2A} // Custom{25882, 7, [0x2A]}
+	for _, shape := range []string{"alternating", "runs"} {
+		var body []byte
+		for i := 0; i < 5000; i++ {
+			if shape == "alternating" {
+				body = append(append(body, trd...), cus...)
+			} else {
+				body = append(body, trd...)
+			}
+		}
+		if shape == "runs" {
+			for i := 0; i < 5000; i++ {
+				body = append(body, cus...)
+			}
+		}
+		runtime.GC()
+		runtime.ReadMemStats(&ms0)
+		t0 := time.Now()
+		rep := &ROAccessReport{}
+		err := rep.UnmarshalBinary(body) // the decoder alone: no conversion of the result
+		el := time.Since(t0)
+		runtime.ReadMemStats(&ms1)
+		alloc := ms1.TotalAlloc - ms0.TotalAlloc
+		verdict := "bounded"
+		if err != nil || len(rep.TagReportData) != 5000 || len(rep.Custom) != 5000 {
+			verdict = fmt.Sprintf("rejected: %v (%d reports, %d custom)", err, len(rep.TagReportData), len(rep.Custom))
+		}
+		if el > 1500*time.Millisecond {
+			verdict = fmt.Sprintf("slow: %v for %d bytes", el.Round(time.Millisecond), len(body))
+		}
+		if alloc > 64*uint64(len(body))+1<<20 {
+			verdict = fmt.Sprintf("balloon: %d bytes allocated for %d bytes", alloc, len(body))
+		}
+		o.line("resource-bound ROAccessReport "+shape, verdict)
+	}
 }
